@@ -24,7 +24,14 @@ the tree); a probe right after the refusal checks that an action the state
 permits still works.
 
 Beyond the exhaustive depth, random walks of up to 14 symbols are judged the
-same way (thorough tier: more of them).
+same way (thorough tier: more of them).  Six walks in ten use further
+realisations of the same symbols: padded DATA in both directions, a
+WINDOW_UPDATE that takes the stream's send window to exactly 2^31-1 (the model
+tracks the window: one octet more is a FLOW_CONTROL_ERROR), and header blocks
+split over HEADERS / PUSH_PROMISE and CONTINUATION - while a block is open only
+its own CONTINUATION may follow (and then counts as the whole frame); anything
+else, a CONTINUATION carrying the rest of the block on another stream included,
+is a connection error.
 """
 import copy
 
@@ -40,10 +47,10 @@ RULE = ('exhaustive: all sequences of length <= DEPTH (quick 4, thorough 5) over
         'message role with/without END_STREAM, send_data, end_stream, reset_stream, push_stream, increment_flow_control_window, stream-bound advertise_alternative_service, cleanup; '
         'received HEADERS in each message role with/without END_STREAM, DATA, RST_STREAM, WINDOW_UPDATE, PUSH_PROMISE, ALTSVC, naked CONTINUATION; '
         'and a reduced set on the promised stream) x role x start (plain / upgraded); a connection error ends a branch; after a refused local action (at most one per sequence, among the first 2 symbols) the sequence goes on with the model unchanged; '
-        'plus random walks of length <= 14; every node = one reaction compared with the allowed set of the reference machine; '
+        'plus random walks of length <= 14 (most with padded DATA, WINDOW_UPDATE up to exactly 2^31-1 and header blocks split over CONTINUATION frames); every node = one reaction compared with the allowed set of the reference machine; '
         'non-trivial = node where the allowed set excluded at least one reaction class the library could have produced (always true) and '
         'the stream was not idle; distinct = the symbol sequence')
-MINIMA = {'nodes_judged': 100000, 'recv_accept_judged': 6000, 'recv_stream_error_judged': 3000, 'recv_conn_error_judged': 10000,
+MINIMA = {'split_header_blocks_completed': 1000, 'frames_inside_open_header_block_judged': 500, 'nodes_judged': 100000, 'recv_accept_judged': 6000, 'recv_stream_error_judged': 3000, 'recv_conn_error_judged': 10000,
           'recv_ignore_judged': 2000, 'local_ok_judged': 5000, 'local_refused_judged': 10000, 'random_walk_nodes_judged': 5000}
 EXHAUSTIVE = {'quick': True, 'thorough': True}
 
@@ -75,6 +82,33 @@ SERVER_ALPHABET = [
     ('R_wu', 'R', P), ('L_push', 'L', P), ('L_altsvc', 'L', S),
 ]
 ALPH = {True: CLIENT_ALPHABET, False: SERVER_ALPHABET}
+# Realisations of the same symbols with other parameters, and header blocks split over HEADERS/PUSH_PROMISE + CONTINUATION; used by
+# the random walks only.  '<sym>+pN' = the DATA frame padded with N octets; 'R_wu_max' = a WINDOW_UPDATE that takes the stream's
+# send window to exactly 2^31-1; 'R_open:<sym>' = the first fragment of <sym>'s header block without END_HEADERS, completed by the
+# next R_cont on that stream (anything else received in between is a connection error).
+MAXW = 2 ** 31 - 1
+CLIENT_EXTRA = [('L_data+p0', 'L', S), ('L_data+p255', 'L', S), ('L_data_es+p7', 'L', S), ('R_wu_max', 'R', S), ('R_wu_max', 'R', P),
+                ('R_data+p7', 'R', S), ('R_data_es+p0', 'R', P),
+                ('R_open:R_resp', 'R', S), ('R_open:R_resp_es', 'R', S), ('R_open:R_info', 'R', S), ('R_open:R_trailers_es', 'R', S),
+                ('R_open:R_pp', 'R', S), ('R_open:R_resp', 'R', P), ('R_cont', 'R', P)]
+SERVER_EXTRA = [('L_data+p0', 'L', S), ('L_data+p255', 'L', S), ('L_data_es+p7', 'L', S), ('L_data_es+p255', 'L', P), ('R_wu_max', 'R', S),
+                ('R_wu_max', 'R', P), ('R_data+p7', 'R', S),
+                ('R_open:R_req', 'R', S), ('R_open:R_req_es', 'R', S), ('R_open:R_trailers_es', 'R', S), ('R_open:R_req', 'R', P),
+                ('R_cont', 'R', P)]
+EXTRA = {True: CLIENT_EXTRA, False: SERVER_EXTRA}
+
+
+def base_name(name):
+    """The alphabet symbol whose expectations a realisation shares."""
+    if '+p' in name:
+        return name.split('+p')[0]
+    if name == 'R_wu_max':
+        return 'R_wu'
+    return name
+
+
+def pad_of(name):
+    return int(name.split('+p')[1]) if '+p' in name else None
 STARTS = ('plain', 'upgraded')
 
 
@@ -102,7 +136,9 @@ def new_stream():
 
 
 def new_model(client, start):
-    m = {'client': client, 'st': {S: new_stream(), P: new_stream(), P2: new_stream()}, 'hi_in': 0, 'hi_out': 0}
+    m = {'client': client, 'st': {S: new_stream(), P: new_stream(), P2: new_stream()}, 'hi_in': 0, 'hi_out': 0,
+         'win': {S: 65535, P: 65535, P2: 65535},     # E's send window per stream as the peer has granted it
+         'block': None}                               # (stream, equivalent symbol, rest of the block) while a header block is open
     if start == 'upgraded':
         s = m['st'][S]
         if client:
@@ -116,7 +152,7 @@ def new_model(client, start):
 
 def clone_model(m):
     return {'client': m['client'], 'st': {k: dict(v) for k, v in m['st'].items()}, 'hi_in': m['hi_in'], 'hi_out': m['hi_out'],
-            'refusals': m.get('refusals', 0)}
+            'refusals': m.get('refusals', 0), 'win': dict(m['win']), 'block': m['block']}
 
 
 def e_end(s):
@@ -142,6 +178,21 @@ ACCEPT, SERR, CERR, IGNORE = 'accept', 'stream-error', 'connection-error', 'igno
 
 def expect_local(m, name, sid):
     """-> ('ok', apply_fn) | ('refused', None) | ('either', apply_fn_if_ok)"""
+    pad = pad_of(name)
+    name = base_name(name)
+    if name in ('L_data', 'L_data_es'):
+        v, fn = _expect_local(m, name, sid)
+        cost = 3 + (0 if pad is None else pad + 1)
+
+        def fn2(mm):
+            mm['win'][sid] -= cost
+            if fn:
+                fn(mm)
+        return v, (fn2 if fn is not None or v == 'ok' else None)
+    return _expect_local(m, name, sid)
+
+
+def _expect_local(m, name, sid):
     client = m['client']
     s = m['st'][sid]
     sendable = s['state'] in ('open', 'hcr')
@@ -238,6 +289,8 @@ def expect_local(m, name, sid):
 def expect_recv(m, name, sid):
     """-> list of allowed reactions: (class, detail, apply_fn)
        accept: detail = exact event-name list; stream-error: detail = set of codes; connection-error: set of codes; ignore: None"""
+    if '+p' in name:
+        name = base_name(name)
     client = m['client']
     s = m['st'][sid]
     state = s['state']
@@ -321,15 +374,23 @@ def expect_recv(m, name, sid):
         def fn(mm):
             mm['st'][sid].update(state='closed', closed_by='rst_recv')
         return [(ACCEPT, ['StreamReset'], fn)]
-    if name == 'R_wu':
+    if name in ('R_wu', 'R_wu_max'):
+        inc = 5 if name == 'R_wu' else max(1, MAXW - m['win'][sid])
         if state == 'idle':
             return perr
         if state == 'closed':
             return [(IGNORE, None, None)]
+
+        def credit(mm):
+            mm['win'][sid] += inc
+        if m['win'][sid] + inc > MAXW:
+            # RFC 7540 6.9.1: a stream window pushed past 2^31-1 is a stream error FLOW_CONTROL_ERROR (or a connection error)
+            over = [(SERR, {FLOW_CONTROL_ERROR}, close_rst_sent), (CERR, {FLOW_CONTROL_ERROR}, None)]
+            return over + (perr if state == 'resr' else [])
         if state == 'resr':
             # reserved(remote): the peer may not send WINDOW_UPDATE (RFC 5.1); the stream has no send side at E
-            return perr + [(ACCEPT, ['WindowUpdated'], lambda mm: None)]
-        return [(ACCEPT, ['WindowUpdated'], lambda mm: None)]
+            return perr + [(ACCEPT, ['WindowUpdated'], credit)]
+        return [(ACCEPT, ['WindowUpdated'], credit)]
     if name in ('R_data', 'R_data_es'):
         es = name.endswith('_es')
         if state == 'idle':
@@ -416,7 +477,27 @@ def expect_recv(m, name, sid):
 
 
 # ----------------------------------------------------------------------------------------------- executing one symbol on the real code
-def frame_for(client, name, sid):
+def block_of(name, sid):
+    """(frame type, header block, END_STREAM) of a header-bearing symbol."""
+    base = name[:-3] if name.endswith('_es') else name
+    hs = {'R_req': REQ, 'R_resp': RESP, 'R_info': INFO, 'R_trailers': TRAILERS, 'R_pp': REQ}[base]
+    return ('PUSH_PROMISE' if base == 'R_pp' else 'HEADERS'), hb(hs), name.endswith('_es')
+
+
+def frame_for(client, name, sid, m=None):
+    if name.startswith('R_open:'):
+        kind, block, es = block_of(name[7:], sid)
+        cut = max(1, len(block) // 2)
+        if kind == 'PUSH_PROMISE':
+            return wire.build_push_promise(sid, P if sid == S else P2, block[:cut], end_headers=False)
+        return wire.build_headers(sid, block[:cut], end_stream=es, end_headers=False)
+    if name == 'R_cont' and m is not None and m['block'] is not None:
+        # the rest of the open block - also when the frame names another stream, where it must not be taken for it
+        return wire.build_continuation(sid, m['block'][2])
+    if '+p' in name:
+        return wire.build_data(sid, b'abc', end_stream=base_name(name).endswith('_es'), pad=pad_of(name))
+    if name == 'R_wu_max':
+        return wire.build_window_update(sid, max(1, MAXW - m['win'][sid]))
     if name in ('R_req', 'R_req_es'):
         return wire.build_headers(sid, hb(REQ), end_stream=name.endswith('_es'))
     if name in ('R_resp', 'R_resp_es'):
@@ -441,6 +522,8 @@ def frame_for(client, name, sid):
 
 
 def do_local(conn, name, sid):
+    if '+p' in name:
+        return conn.send_data(sid, b'xyz', end_stream=base_name(name).endswith('_es'), pad_length=pad_of(name))
     if name in ('L_req', 'L_req_es'):
         return conn.send_headers(sid, REQ, end_stream=name.endswith('_es'))
     if name in ('L_resp', 'L_resp_es'):
@@ -560,8 +643,26 @@ class Judge(object):
                 return True
             return False
         # received frame
-        allowed = expect_recv(m, name, sid)
-        data = frame_for(client, name, sid)
+        blk = m['block']
+        data = frame_for(client, name, sid, m)
+        if blk is not None:
+            # a header block is open: only its CONTINUATION may follow (RFC 7540 6.10), which then counts as the whole frame
+            if name == 'R_cont' and sid == blk[0]:
+                allowed = expect_recv(m, blk[1], sid)
+                rep.count('split_header_blocks_completed')
+            else:
+                allowed = [(CERR, {PROTOCOL_ERROR}, None)]
+                rep.count('frames_inside_open_header_block_judged')
+            m['block'] = None
+        elif name.startswith('R_open:'):
+            kind, block, es = block_of(name[7:], sid)
+            rest = block[max(1, len(block) // 2):]
+
+            def opened(mm):
+                mm['block'] = (sid, name[7:], rest)
+            allowed = [(IGNORE, None, opened)]
+        else:
+            allowed = expect_recv(m, name, sid)
         exc = None
         events = []
         try:
@@ -616,6 +717,8 @@ class Judge(object):
                 return True
             if cls == IGNORE and not goaways:
                 rep.count('recv_ignore_judged')
+                if fn:
+                    fn(m)
                 return True
         want = ' | '.join('%s%s' % (a[0], '' if a[1] is None else ':%s' % (sorted(a[1]) if isinstance(a[1], set) else a[1])) for a in allowed)
         if observed[0] == CERR:
@@ -703,6 +806,9 @@ def run_case(idx, rng, tier, rep):
     client = rng.random() < 0.5
     start = rng.choice(STARTS)
     alphabet = ALPH[client]
+    if rng.random() < 0.6:
+        alphabet = alphabet + EXTRA[client] * 2
+        rep.count('random_walks_with_parameter_variants_and_split_blocks')
     j = Judge(rep, client, start)
     conn = start_conn(client, start)
     m = new_model(client, start)
@@ -712,11 +818,18 @@ def run_case(idx, rng, tier, rep):
         if cand[1] == 'L':
             return expect_local(m, cand[0], cand[2])[0] != 'refused'
         if cand[1] == 'R':
+            if m['block'] is not None:
+                return cand[0] == 'R_cont' and cand[2] == m['block'][0]
+            if cand[0].startswith('R_open:'):
+                return True
             return not all(a[0] == CERR for a in expect_recv(m, cand[0], cand[2]))
         return True
 
     for _ in range(14):
-        if rng.random() < 0.9:
+        if m['block'] is not None and rng.random() < 0.25:
+            # the continuation arrives on another stream than the block it would continue
+            sym = ('R_cont', 'R', rng.choice([x for x in (S, P, P2) if x != m['block'][0]]))
+        elif rng.random() < 0.9:
             live = [c for c in alphabet if keeps_going(c)]
             sym = rng.choice(live or alphabet)
         else:
